@@ -42,6 +42,7 @@ def run(tier):
         if len(perms) > 3:
             perms = [perms[0], perms[-1]] + rnd.sample(perms[1:-1], 1 if tier == "quick" else 2)
         variants = [[{"op": "add", "tpls": list(p)}] for p in perms]
+        variants.append([{"op": "add", "tpls": list(perms[-1]), "via": "files"}])          # the same batch through add_template_files
         if v["ok"] and len(tpls) > 1:
             byname = dict(tpls)
             order, cur = [], [n for n in names if not v["g"][n]["ext"]][0]
